@@ -511,7 +511,7 @@ func (w *Workceptor) GetResults(ctx context.Context, unitID string, startPos int
 			switch {
 			case err == nil:
 			case os.IsNotExist(err):
-				if IsComplete(unit.Status().State) {
+				if state := unit.Status().State; IsComplete(state) || state == WorkStateCanceled {
 					w.nc.GetLogger().Warning("Unit completed without producing any stdout\n")
 
 					return
@@ -594,7 +594,8 @@ func (w *Workceptor) GetResults(ctx context.Context, unitID string, startPos int
 			}
 			if err == io.EOF {
 				unitStatus := unit.Status()
-				if IsComplete(unitStatus.State) && filePos >= unitStatus.StdoutSize {
+				// a cancelled unit is finished as well: nothing more will be written
+				if (IsComplete(unitStatus.State) || unitStatus.State == WorkStateCanceled) && filePos >= unitStatus.StdoutSize {
 					w.nc.GetLogger().Debug("Stdout complete - closing channel for: %s \n", unitID)
 
 					return
